@@ -277,10 +277,10 @@ _CACHE: Dict[int, Any] = {}
 
 
 def stage_traces(repo) -> List[RunTrace]:
-    key = ("stage", id(repo))
-    if key not in _CACHE:
-        _CACHE[key] = [trace_stage(repo, sc) for sc in stage_scenarios()]
-    return _CACHE[key]
+    cache = repo.__dict__.setdefault("_pvs_trace_cache", {})
+    if "stage" not in cache:
+        cache["stage"] = [trace_stage(repo, sc) for sc in stage_scenarios()]
+    return cache["stage"]
 
 
 def run_scenarios():
@@ -297,7 +297,7 @@ def run_scenarios():
 
 
 def run_traces(repo) -> List[RunTrace]:
-    key = ("run", id(repo))
-    if key not in _CACHE:
-        _CACHE[key] = [trace_run(repo, sc) for sc in run_scenarios()]
-    return _CACHE[key]
+    cache = repo.__dict__.setdefault("_pvs_trace_cache", {})
+    if "run" not in cache:
+        cache["run"] = [trace_run(repo, sc) for sc in run_scenarios()]
+    return cache["run"]
